@@ -144,6 +144,9 @@ def levels(tier: str) -> list[dict]:
     plan = [('patterns', 'gamma', 3 if q else 5), ('patterns', 'claim', 3 if q else 4), ('proofs', 'proof', 3 if q else 5), ('small', 'proof', 4 if q else 6), ('all', 'gamma', 3 if q else 4)]
     for alpha, ph, st in plan:
         L.append(dict(label=f'seq/{alpha}/{ph}/steps<={st}', module=M, fn='h_seq', kwargs=dict(alphabet=alpha, steps=st, phase=ph), budget_s=bud, required=True, twin=(alpha == 'small')))
+    # module-level runs: imports, repeated axioms, every axiom loaded again in the proof phase (Load addressing)
+    for shape, nax, size in ([(1, 1, 2), (2, 1, 2)] if q else [(1, 2, 2), (2, 1, 3), (2, 2, 2)]):
+        L.append(dict(label=f'module/imports={shape},axioms={nax},size<={size}', module='vf.props.c03', fn='h_module', kwargs=dict(shape=shape, nax=nax, nclaims=2, prof='ax', size=size), budget_s=bud, required=True, twin=False))
     return L
 
 
